@@ -183,7 +183,7 @@ pub fn run(tier: &str) -> i32 {
     for b in 0..=255u8 {
         shorts.push(vec![b]);
     }
-    for len in 2..=6usize {
+    for len in 2..=(if thorough { 8usize } else { 6 }) {
         for code in 0..3usize.pow(len as u32) {
             let mut c = code;
             let mut v = Vec::with_capacity(len);
